@@ -75,37 +75,33 @@ func relayKernel(rel, fn, lhs, rhs, leanName, params, resultTy string, sp Spec) 
 func init() {
 	s := "trillian/ctfe/sth.go"
 	h := "trillian/ctfe/handlers.go"
-	repl := map[string]string{"currentRoot.TimestampNanos": "tsNanos_", "currentRoot.TreeSize": "treeSize_"}
+	sels := map[string]string{"TimestampNanos": "tsNanos", "TreeSize": "treeSize"}
+	first, second := "parseGetSTHConsistencyRange#0", "parseGetSTHConsistencyRange#1"
+	idx, size := "parseGetEntryAndProofParams#0", "parseGetEntryAndProofParams#1"
 	register(genFile{name: "FrontEnd", imports: []string{"CTV.Basic.I64"}, units: []unit{
-		{"sthTimestamp", kvKernel(s, "LogSTHGetter.GetSTH", "Timestamp", "sthTimestamp", "(tsNanos_ : Int)", "Int",
-			Spec{Kind: "u64", Repl: repl})},
-		{"sthTreeSize", kvKernel(s, "LogSTHGetter.GetSTH", "TreeSize", "sthTreeSize", "(treeSize_ : Int)", "Int",
-			Spec{Kind: "u64", Repl: repl})},
+		{"sthTimestamp", resolvedFieldKernel(s, "LogSTHGetter.GetSTH", "ct.SignedTreeHead", "Timestamp", sels, "sthTimestamp", "(tsNanos_ : Int)", "Int", Spec{Kind: "u64"})},
+		{"sthTreeSize", resolvedFieldKernel(s, "LogSTHGetter.GetSTH", "ct.SignedTreeHead", "TreeSize", sels, "sthTreeSize", "(treeSize_ : Int)", "Int", Spec{Kind: "u64"})},
 		{"sigCacheMiss", condKernel("trillian/ctfe/serialize.go", "SignatureCache.GetSignature", []string{"bytes.Equal"}, "sigCacheMiss", "(sameInput : Bool)",
 			Spec{Repl: map[string]string{"bytes.Equal(input, sc.input)": "sameInput"}})},
-		// --- what the three proof-serving handlers forward to the backend and relay back (handlers.go)
-		{"consNeedsBackend", condKernel(h, "getSTHConsistency", []string{"first != 0"}, "consNeedsBackend", "(first_ : Int)", Spec{Kind: "i64"})},
-		{"reqGetConsistencyProof", tupleKernel(h, "getSTHConsistency", []string{"FirstTreeSize", "SecondTreeSize"}, "reqGetConsistencyProof",
-			"(first_ second_ : Int)", "Int × Int", Spec{Kind: "i64"})},
-		{"consRootTooSmall", condKernel(h, "getSTHConsistency", []string{"currentRoot.TreeSize"}, "consRootTooSmall", "(rootSize_ second_ : Int)",
-			Spec{Kind: "u64", Repl: map[string]string{"currentRoot.TreeSize": "rootSize_"}})},
-		{"relayConsistency", relayKernel(h, "getSTHConsistency", "jsonRsp.Consistency", "rsp.Proof.Hashes", "relayConsistency", "{α : Type} (proofHashes_ : α)", "α",
-			Spec{Repl: map[string]string{"rsp.Proof.Hashes": "proofHashes_"}})},
-		{"proofByHashBadSize", condKernel(h, "getProofByHash", []string{"treeSize < 1"}, "proofByHashBadSize", "(parseErr : Bool) (treeSize_ : Int)",
-			Spec{Kind: "i64", Repl: map[string]string{"err != nil": "parseErr"}})},
-		{"reqGetInclusionProofByHash", tupleKernel(h, "getProofByHash", []string{"LeafHash", "TreeSize"}, "reqGetInclusionProofByHash",
-			"{α : Type} (leafHash_ : α) (treeSize_ : Int)", "α × Int", Spec{Kind: "i64"})},
-		{"proofByHashRootTooSmall", condKernel(h, "getProofByHash", []string{"currentRoot.TreeSize"}, "proofByHashRootTooSmall", "(rootSize_ treeSize_ : Int)",
-			Spec{Kind: "u64", Repl: map[string]string{"currentRoot.TreeSize": "rootSize_"}})},
-		{"relayProofByHash", tupleKernel(h, "getProofByHash", []string{"LeafIndex", "AuditPath"}, "relayProofByHash",
-			"{α β : Type} (firstProofLeafIndex_ : α) (firstProofHashes_ : β)", "α × β",
-			Spec{Repl: map[string]string{"rsp.Proof[0].LeafIndex": "firstProofLeafIndex_", "rsp.Proof[0].Hashes": "firstProofHashes_"}})},
-		{"reqGetEntryAndProof", tupleKernel(h, "getEntryAndProof", []string{"LeafIndex", "TreeSize"}, "reqGetEntryAndProof",
-			"(leafIndex_ treeSize_ : Int)", "Int × Int", Spec{Kind: "i64"})},
-		{"entryAndProofRootTooSmall", condKernel(h, "getEntryAndProof", []string{"currentRoot.TreeSize"}, "entryAndProofRootTooSmall", "(rootSize_ treeSize_ : Int)",
-			Spec{Kind: "u64", Repl: map[string]string{"currentRoot.TreeSize": "rootSize_"}})},
-		{"relayEntryAndProof", tupleKernel(h, "getEntryAndProof", []string{"LeafInput", "ExtraData", "AuditPath"}, "relayEntryAndProof",
-			"{α β : Type} (leafValue_ extraData_ : α) (proofHashes_ : β)", "α × α × β",
-			Spec{Repl: map[string]string{"rsp.Leaf.LeafValue": "leafValue_", "rsp.Leaf.ExtraData": "extraData_", "rsp.Proof.Hashes": "proofHashes_"}})},
+		// --- what the three proof-serving handlers forward to the backend and relay back (handlers.go), by origin of the values
+		{"consNeedsBackend", needsBackend(h, "getSTHConsistency", first, "GetConsistencyProof", "consNeedsBackend", "first_")},
+		{"reqGetConsistencyProof", flowTuple(h, "getSTHConsistency", "trillian.GetConsistencyProofRequest", []string{"FirstTreeSize", "SecondTreeSize"},
+			map[string]string{first: "first_", second: "second_"}, "reqGetConsistencyProof", "(first_ second_ : Int)", "Int × Int")},
+		{"consRootTooSmall", rootGuard(h, "getSTHConsistency", second, "consRootTooSmall", "second_")},
+		{"relayConsistency", flowAssign(h, "getSTHConsistency", "Consistency", map[string]string{"GetConsistencyProof#0.Proof.Hashes": "proofHashes_"},
+			"relayConsistency", "{α : Type} (proofHashes_ : α)", "α")},
+		{"proofByHashBadSize", badSizeGuard(h, "getProofByHash", "ParseInt#0", "proofByHashBadSize")},
+		{"reqGetInclusionProofByHash", flowTuple(h, "getProofByHash", "trillian.GetInclusionProofByHashRequest", []string{"LeafHash", "TreeSize"},
+			map[string]string{"DecodeString#0": "leafHash_", "ParseInt#0": "treeSize_"}, "reqGetInclusionProofByHash", "{α : Type} (leafHash_ : α) (treeSize_ : Int)", "α × Int")},
+		{"proofByHashRootTooSmall", rootGuard(h, "getProofByHash", "ParseInt#0", "proofByHashRootTooSmall", "treeSize_")},
+		{"relayProofByHash", flowTuple(h, "getProofByHash", "ct.GetProofByHashResponse", []string{"LeafIndex", "AuditPath"},
+			map[string]string{"GetInclusionProofByHash#0.Proof[0].LeafIndex": "firstProofLeafIndex_", "GetInclusionProofByHash#0.Proof[0].Hashes": "firstProofHashes_"},
+			"relayProofByHash", "{α β : Type} (firstProofLeafIndex_ : α) (firstProofHashes_ : β)", "α × β")},
+		{"reqGetEntryAndProof", flowTuple(h, "getEntryAndProof", "trillian.GetEntryAndProofRequest", []string{"LeafIndex", "TreeSize"},
+			map[string]string{idx: "leafIndex_", size: "treeSize_"}, "reqGetEntryAndProof", "(leafIndex_ treeSize_ : Int)", "Int × Int")},
+		{"entryAndProofRootTooSmall", rootGuard(h, "getEntryAndProof", size, "entryAndProofRootTooSmall", "treeSize_")},
+		{"relayEntryAndProof", flowTuple(h, "getEntryAndProof", "ct.GetEntryAndProofResponse", []string{"LeafInput", "ExtraData", "AuditPath"},
+			map[string]string{"GetEntryAndProof#0.Leaf.LeafValue": "leafValue_", "GetEntryAndProof#0.Leaf.ExtraData": "extraData_", "GetEntryAndProof#0.Proof.Hashes": "proofHashes_"},
+			"relayEntryAndProof", "{α β : Type} (leafValue_ extraData_ : α) (proofHashes_ : β)", "α × α × β")},
 	}})
 }
